@@ -25,8 +25,12 @@ def run(c):
     ]
     return c.finish(
         rule="strings over the property's alphabet (ASCII specials, quotes, '@', combining marks, case-sensitive letters, fullwidth forms, punycode labels), "
-        "valid IDN addresses with their case/NFD/A-label/trailing-dot variants, and mutated valid addresses; each op runs the real function and the Lean model "
-        "(primitive results shipped as a table); distinct = distinct op lines",
+        "valid addresses (IDN labels incl. Greek sigma at word-final / pre-hyphen / pre-digit positions, final sigma, dotless i, Lithuanian/Dutch special-casing letters, "
+        "right-to-left labels, joiners; labels maddy accepts that are no STD3 host names: underscores, '--' in positions 3-4, leading/trailing hyphens, digits only, a 64-byte label; address literals) "
+        "with their spelling variants (whole-string upper/title case, word-final upper case, random simple case mappings, NFD, combinations; A-labels in lower/upper/random letter case, "
+        "per-label mixes, trailing dot; a respelling counts as a variant when the harness' own NFC + simple-lower-case fold agrees), and mutated valid addresses; "
+        "each op runs the real function and the Lean model (primitive results shipped as a table); monitor: variants share ForLookup / dns.ForLookup / CleanDomain results and compare Equal, "
+        "every address address.Valid accepts gets a key from ForLookup / CleanDomain / dns.ForLookup / dns.ToUnicode, conversions succeed and round-trip on generated addresses; distinct = distinct op lines",
         explanation="theorems for all code-point lists and all primitive implementations; model tied to the code by differential runs; laws of the Unicode primitives sampled",
         search=search,
     )
